@@ -284,6 +284,13 @@ def cases(cfg, g, US, UV):
                     yield "attack", ("AP", (("a", b), ("b", a), ("c", c)))
 
 
+class _Unprintable:
+    def __str__(self):
+        raise ValueError("cannot be printed")
+
+    __repr__ = __str__
+
+
 def _stale_digests(x):
     if isinstance(x, dict):
         if "content_id" in x:
@@ -322,6 +329,17 @@ def run_shard(cfg):
             continue
         rec.outcome(kind)
         NODE_REGISTRY.clear()
+        if idx % 2:
+            # every other case is built right after constructions that FAIL part-way (a child that is not a node, a property
+            # that cannot be printed): what a failed construction leaves behind must not reach the next node's digest
+            for bad in (lambda: g["AB"](ka=g["AV"](1), kb="not a node", pa=1), lambda: g["AT"](items=(g["AV"](2), 3)),
+                        lambda: g["AB"](pa=1, pb=_Unprintable()), lambda: g["AO"](c=object())):
+                try:
+                    bad()
+                    rec.count("failed_constructions_that_succeeded")
+                except Exception:  # noqa: BLE001
+                    rec.count("failed_constructions")
+            NODE_REGISTRY.clear()
         node = U.build(d)
         rec.count("transitions")
         rec.count("traces")
